@@ -3,12 +3,15 @@
 
 #[cfg(kani)]
 mod imp {
-    #[inline(always)] pub fn u64() -> u64 { kani::any() }
-    #[inline(always)] pub fn usize() -> usize { kani::any() }
-    #[inline(always)] pub fn u32() -> u32 { kani::any() }
-    #[inline(always)] pub fn u16() -> u16 { kani::any() }
-    #[inline(always)] pub fn u8() -> u8 { kani::any() }
-    #[inline(always)] pub fn bool() -> bool { kani::any() }
+    // Every drawn value gets a tautological assumption that the simplifier does not remove:
+    // assumptions stay in the cone of influence of every property, so `--slice-formula` keeps the
+    // value in counterexample traces and native replay receives ALL inputs in call order.
+    #[inline(always)] pub fn u64() -> u64 { let v: u64 = kani::any(); kani::assume((v | 1) != 0); v }
+    #[inline(always)] pub fn usize() -> usize { let v: usize = kani::any(); kani::assume((v | 1) != 0); v }
+    #[inline(always)] pub fn u32() -> u32 { let v: u32 = kani::any(); kani::assume((v | 1) != 0); v }
+    #[inline(always)] pub fn u16() -> u16 { let v: u16 = kani::any(); kani::assume((v | 1) != 0); v }
+    #[inline(always)] pub fn u8() -> u8 { let v: u8 = kani::any(); kani::assume((v | 1) != 0); v }
+    #[inline(always)] pub fn bool() -> bool { let v: u8 = kani::any(); kani::assume(v <= 1 && (v | 2) != 0); v == 1 }
     #[inline(always)] pub fn assume(c: bool) { kani::assume(c) }
     #[inline(always)] pub fn cover(c: bool) { kani::cover!(c) }
 }
